@@ -59,8 +59,11 @@ def match_known(known, prop, v):
 def write_evidence(prop, tier, seed, level, coverage, assumptions, wall, nviol):
     ev = dict(property_id=prop, tier=tier, seed=seed, level=level, coverage=coverage,
               assumptions=assumptions, wall_s=round(wall, 3), violations=nviol)
-    os.makedirs(os.path.join(HERE, 'evidence'), exist_ok=True)
-    p = os.path.join(HERE, 'evidence', prop + '.json')
+    evdir = os.path.join(HERE, 'evidence')
+    if os.path.realpath(os.environ.get('VERIF_REPO', '/repo')) != '/repo':
+        evdir = '/tmp/verif-scratch-evidence'     # runs against scratch copies never touch the real evidence
+    os.makedirs(evdir, exist_ok=True)
+    p = os.path.join(evdir, prop + '.json')
     tmp = p + '.tmp'
     with open(tmp, 'w') as f:
         json.dump(ev, f, indent=1, sort_keys=True, default=_jd)
